@@ -273,7 +273,52 @@ type spec struct {
 	inDomain     bool
 }
 
+// a syscall rule that has the shape of a file watch (path, perm, optional key): ToCommandLine prints those with -w
+func genWatchShaped(r *sx.Rng) spec {
+	var s spec
+	s.list, s.action, s.scAll, s.inDomain = "exit", "always", true, true
+	if r.Chance(1, 3) {
+		s.scText = []string{"all"}
+	}
+	seg := func() string { return strings.Trim(strings.ReplaceAll(safeStr(r, 1+r.Intn(6)), "/", "x"), ".") + "q" }
+	path := "/" + seg() + "/" + seg()
+	switch r.Intn(10) {
+	case 0:
+		path = "/" + seg() + "//" + seg()
+	case 1:
+		path = "/" + seg() + "/./" + seg()
+	case 2:
+		path = "/" + seg() + "/../" + seg()
+	case 3:
+		path += "/"
+	case 4:
+		path = seg() + "/" + seg()
+	case 5:
+		path = sx.Pick(r, []string{"/", "//", "/..", "/.", ".", "..", "/" + seg() + "/.."})
+	}
+	perm := item{field: "perm", op: "="}
+	for k := 1 + r.Intn(4); k > 0; k-- {
+		l := "rwxa"[r.Intn(4)]
+		perm.text += string(l)
+		perm.num |= map[byte]uint32{'r': 4, 'w': 2, 'x': 1, 'a': 8}[l]
+	}
+	s.items = []item{{field: "path", op: "=", text: path, isStr: true}, perm}
+	if r.Chance(1, 6) {
+		s.items[0], s.items[1] = s.items[1], s.items[0]
+	}
+	if r.Chance(1, 8) {
+		s.items[0].op = "!="
+	}
+	for k := r.Intn(3); k > 0; k-- {
+		s.keys = append(s.keys, safeStr(r, 1+r.Intn(8)))
+	}
+	return s
+}
+
 func genSpec(r *sx.Rng) spec {
+	if r.Chance(1, 12) {
+		return genWatchShaped(r)
+	}
 	var s spec
 	s.list = sx.Pick(r, []string{"exit", "exit", "exit", "task", "user", "exclude"})
 	s.action = sx.Pick(r, []string{"always", "never"})
@@ -331,6 +376,15 @@ func genSpec(r *sx.Rng) spec {
 			s.scAll = true
 			pos := r.Intn(len(s.scText) + 1)
 			s.scText = append(s.scText[:pos], append([]string{"all"}, s.scText[pos:]...)...)
+		}
+	}
+	if r.Chance(1, 70) {
+		// every number 0..2015, and some of the last word's
+		s.scAll, s.scText, s.scNums = false, nil, nil
+		top := 2016 + sx.Pick(r, []int{0, 0, 1, 5, 16})
+		for k := 0; k < top; k++ {
+			s.scText = append(s.scText, strconv.Itoa(k))
+			s.scNums = append(s.scNums, uint32(k))
 		}
 	}
 	nk := r.Intn(4)
@@ -493,6 +547,56 @@ func modeBuild(seed uint64, n int, out *sx.Out) {
 			cls = "syscall-rule/rejected"
 		}
 		out.Case(fmt.Sprintf("BRule %s %s %s", s.coq(), optBytes(b, err), rt), desc, cls, err == nil && len(s.items) > 0)
+	}
+	// value spellings: one filter per rule, the value word read back from the bytes Build returned
+	oddTexts := []string{"", "0x", "0X1G", "1_0", "_1", "1_", "0_7", "+5", "-0", "-0x10", "0b102", "0o17", "017", "089", "4294967295", "4294967296", "99999999999999999999",
+		"-2147483648", "-2147483649", "2147483648", "-1", "unset", "UNSET", "ENOENT", "-EPERM", "eperm", "-", "--1", "E", "rwxa", "rwxz", "", "RW", "FILE", "Socket", "dir", "fifo1",
+		"B64", "b32", "X86_64", "x86_64", "armeb", "nosucharch", "UNKNOWN[1500]", "unknown[77]", "UNKNOWN[65536]", "syscall", "USER_LOGIN", "1e3", " 1", "1 ", "0x7fffffff", "0xffffffff", "0x100000000"}
+	vfields := append(append(append([]string{}, numFields...), uidFields...), gidFields...)
+	vfields = append(vfields, "exit", "exit", "msgtype", "msgtype", "arch", "perm", "filetype", "filetype")
+	for i := 0; i < n/2; i++ {
+		r := sx.Fork(seed^0x5a5a, uint64(i))
+		f := sx.Pick(r, vfields)
+		var text string
+		switch r.Intn(5) {
+		case 0, 1:
+			text = sx.Pick(r, oddTexts)
+		case 2:
+			it := genItem(r, "exit", false)
+			for it.compare || it.isStr {
+				it = genItem(r, "exit", false)
+			}
+			text = it.text
+			if r.Chance(1, 2) {
+				f = it.field
+			}
+		default:
+			it := genItem(r, "exit", true)
+			for it.compare || it.isStr || it.field == "msgtype" {
+				it = genItem(r, "exit", true)
+			}
+			f, text = it.field, it.text
+		}
+		list := "exit"
+		if f == "msgtype" {
+			list = "user"
+		}
+		ru := &rule.SyscallRule{Type: rule.AppendSyscallRuleType, List: list, Action: "always", Filters: []rule.FilterSpec{{Type: rule.ValueFilterType, LHS: f, Comparator: "=", RHS: text}}}
+		obs := "None"
+		var err error
+		func() {
+			defer func() {
+				if p := recover(); p != nil {
+					err = fmt.Errorf("PANIC: %v", p)
+				}
+			}()
+			var b []byte
+			b, err = rule.Build(ru)
+			if err == nil {
+				obs = fmt.Sprintf("(Some %d)", binary.LittleEndian.Uint32(b[524:528]))
+			}
+		}()
+		out.Case(fmt.Sprintf("BVal %s %s %s", cstr(f), cs(text), obs), map[string]interface{}{"case": i, "field": f, "text": text, "err": fmt.Sprint(err)}, "value/"+f, err == nil)
 	}
 	out.Meta(map[string]interface{}{"rules_accepted_by_build": accepted, "runtime_goarch": runtime.GOARCH})
 }
